@@ -26,7 +26,7 @@ HexVal(c) == CASE c = "0" -> 0 [] c = "1" -> 1 [] c = "2" -> 2 [] c = "3" -> 3 [
                [] c = "e" -> 14 [] c = "f" -> 15 [] OTHER -> 16
 \* the only code points the byte alphabet can produce
 ByteOf(n) == CASE n = 46 -> "." [] n = 47 -> "/" [] n = 37 -> "%" [] n = 120 -> "x"
-               [] n = 63 -> "?" [] n = 35 -> "#"
+               [] n = 63 -> "?" [] n = 35 -> "#" [] n = 92 -> "\\"
 
 RECURSIVE Decode(_)
 Decode(s) ==
